@@ -276,20 +276,25 @@ def eval (g : Grammar) (inp : Input) : Nat → PExpr → Nat → Rec → PState 
       | (.ok q r' ts, st') =>
         (match evalMany0 g inp fuel e q r' st' with
          | (.ok q' r'' ts', st'') => (.ok q' r'' (ts ++ ts'), st'')
-         | x => x)
-      | x => x
+         | (.err ep, st') => (.err ep, st')
+         | (.oof, st') => (.oof, st'))
+      | (.err ep, st') => (.err ep, st')
+      | (.oof, st') => (.oof, st')
     | .manyTill e t => evalManyTill g inp fuel e t pos r st
     | .list sep item =>
       match eval g inp fuel item pos r st with
       | (.ok q r' ts, st') =>
         (match evalList g inp fuel sep item q r' st' with
          | (.ok q' r'' ts', st'') => (.ok q' r'' (ts ++ ts'), st'')
-         | x => x)
-      | x => x
+         | (.err ep, st') => (.err ep, st')
+         | (.oof, st') => (.oof, st'))
+      | (.err ep, st') => (.err ep, st')
+      | (.oof, st') => (.oof, st')
     | .peek e =>
       match eval g inp fuel e pos r st with
       | (.ok _ _ ts, st') => (.ok pos r ts, st')
-      | x => x
+      | (.err ep, st') => (.err ep, st')
+      | (.oof, st') => (.oof, st')
     | .not e =>
       match eval g inp fuel e pos r st with
       | (.ok _ _ _, st') => (.err pos, st')
@@ -298,25 +303,30 @@ def eval (g : Grammar) (inp : Input) : Nat → PExpr → Nat → Rec → PState 
     | .drop e =>
       match eval g inp fuel e pos r st with
       | (.ok q r' _, st') => (.ok q r' [], st')
-      | x => x
+      | (.err ep, st') => (.err ep, st')
+      | (.oof, st') => (.oof, st')
     | .allConsuming e =>
       match eval g inp fuel e pos r st with
       | (.ok q r' ts, st') => if q ≥ inp.size then (.ok q r' ts, st') else (.err q, st')
-      | x => x
+      | (.err ep, st') => (.err ep, st')
+      | (.oof, st') => (.oof, st')
     | .node k e =>
       match eval g inp fuel e pos r st with
       | (.ok q r' ts, st') => (.ok q r' [.node k ts], st')
-      | x => x
+      | (.err ep, st') => (.err ep, st')
+      | (.oof, st') => (.oof, st')
     | .lexeme e =>
       match eval g inp fuel e pos r st with
       | (.ok q r' ts, st') => (.ok q r' (mergeLeaves ts), st')
-      | x => x
+      | (.err ep, st') => (.err ep, st')
+      | (.oof, st') => (.oof, st')
     | .identKw e =>
       match eval g inp fuel e pos r st with
       | (.ok q r' ts, st') =>
         if isKeyword g inp st'.vers (mergeLeaves ts) then (.err q, st')
         else (.ok q r' (mergeLeaves ts), st')
-      | x => x
+      | (.err ep, st') => (.err ep, st')
+      | (.oof, st') => (.oof, st')
     | .beginDir => (.ok pos r [], { st with dir := st.dir + 1 })
     | .endDir => (.ok pos r [], { st with dir := st.dir - 1 })
     | .beginKw v => (.ok pos r [], { st with vers := v :: st.vers })
@@ -328,11 +338,13 @@ def eval (g : Grammar) (inp : Input) : Nat → PExpr → Nat → Rec → PState 
     | .nestl first item wraps outer =>
       match eval g inp fuel first pos r st with
       | (.ok q r' ts, st') => evalNest g inp fuel item wraps outer q r' st' ts
-      | x => x
+      | (.err ep, st') => (.err ep, st')
+      | (.oof, st') => (.oof, st')
     | .shaped stmts res =>
-      match evalStmts g inp fuel stmts pos r st [] with
+      match evalStmts g inp fuel stmts pos r st with
       | ((.ok q r' _, st'), env) => (.ok q r' (evalShape env res), st')
-      | (x, _) => x
+      | ((.err ep, st'), _) => (.err ep, st')
+      | ((.oof, st'), _) => (.oof, st')
     | .fail => (.err pos, st)
 
 def evalSeq (g : Grammar) (inp : Input) : Nat → List PExpr → Nat → Rec → PState → Out × PState
@@ -343,8 +355,10 @@ def evalSeq (g : Grammar) (inp : Input) : Nat → List PExpr → Nat → Rec →
     | (.ok q r' ts, st') =>
       (match evalSeq g inp fuel es q r' st' with
        | (.ok q' r'' ts', st'') => (.ok q' r'' (ts ++ ts'), st'')
-       | x => x)
-    | x => x
+       | (.err ep, st') => (.err ep, st')
+       | (.oof, st') => (.oof, st'))
+    | (.err ep, st') => (.err ep, st')
+    | (.oof, st') => (.oof, st')
 
 def evalAlt (g : Grammar) (inp : Input) :
     Nat → List PExpr → Nat → Rec → PState → Option Nat → Out × PState
@@ -366,7 +380,8 @@ def evalMany0 (g : Grammar) (inp : Input) : Nat → PExpr → Nat → Rec → PS
       else
         (match evalMany0 g inp fuel e q r' st' with
          | (.ok q' r'' ts', st'') => (.ok q' r'' (ts ++ ts'), st'')
-         | x => x)
+         | (.err ep, st') => (.err ep, st')
+         | (.oof, st') => (.oof, st'))
     | (.err _, st') => (.ok pos r [], st')
     | (.oof, st') => (.oof, st')
 
@@ -385,8 +400,10 @@ def evalManyTill (g : Grammar) (inp : Input) :
         else
           (match evalManyTill g inp fuel e t q r' st'' with
            | (.ok q' r'' ts', st3) => (.ok q' r'' (ts ++ ts'), st3)
-           | x => x)
-      | x => x
+           | (.err ep, st') => (.err ep, st')
+           | (.oof, st') => (.oof, st'))
+      | (.err ep, st') => (.err ep, st')
+      | (.oof, st') => (.oof, st')
 
 /-- the loop of `utils::list`: `while let Ok(b) = sep { if let Ok(c) = item { push } else break }` -/
 def evalList (g : Grammar) (inp : Input) :
@@ -399,7 +416,8 @@ def evalList (g : Grammar) (inp : Input) :
        | (.ok q2 r2 ts2, st2) =>
          (match evalList g inp fuel sep item q2 r2 st2 with
           | (.ok q3 r3 ts3, st3) => (.ok q3 r3 (ts ++ ts2 ++ ts3), st3)
-          | x => x)
+          | (.err ep, st') => (.err ep, st')
+          | (.oof, st') => (.oof, st'))
        | (.err _, st2) => (.ok pos r [], st2)
        | (.oof, st2) => (.oof, st2))
     | (.err _, st') => (.ok pos r [], st')
@@ -419,15 +437,18 @@ def evalNest (g : Grammar) (inp : Input) :
     | (.err _, st') => (.ok pos r acc, st')
     | (.oof, st') => (.oof, st')
 
-/-- statements of a `let (s, x) = P(s)?; …` production: each contributes one environment slot -/
+/-- statements of a `let (s, x) = P(s)?; …` production: each contributes one environment slot (in order) -/
 def evalStmts (g : Grammar) (inp : Input) :
-    Nat → List PExpr → Nat → Rec → PState → List (List Tree) → (Out × PState) × List (List Tree)
-  | 0, _, _, _, st, env => ((.oof, st), env)
-  | _ + 1, [], pos, r, st, env => ((.ok pos r [], st), env)
-  | fuel + 1, e :: es, pos, r, st, env =>
+    Nat → List PExpr → Nat → Rec → PState → (Out × PState) × List (List Tree)
+  | 0, _, _, _, st => ((.oof, st), [])
+  | _ + 1, [], pos, r, st => ((.ok pos r [], st), [])
+  | fuel + 1, e :: es, pos, r, st =>
     match eval g inp fuel e pos r st with
-    | (.ok q r' ts, st') => evalStmts g inp fuel es q r' st' (env ++ [ts])
-    | x => (x, env)
+    | (.ok q r' ts, st') =>
+      (match evalStmts g inp fuel es q r' st' with
+       | (x, env) => (x, ts :: env))
+    | (.err ep, st') => ((.err ep, st'), [])
+    | (.oof, st') => ((.oof, st'), [])
 
 /-- a production call: `#[packrat_parser]` outermost, `#[recursive_parser]` inside it -/
 def evalCall (g : Grammar) (inp : Input) : Nat → Nat → Nat → Rec → PState → Out × PState
